@@ -91,7 +91,8 @@ Definition disagg_cell (res_new n : nat) (ws : list Q) (fields : list str) (c : 
   else Ok (map (sub_cell fields c) (combine subs (norm_weights w0))).
 
 Definition valid_weights (n : nat) (ws : list Q) : bool :=
-  (length ws =? n)%nat && forallb (fun w => Qle_bool 0 w && Qle_bool w 1) ws && Qeq_bool (qsum ws) 1.
+  (length ws =? n)%nat && forallb (fun w => Qle_bool 0 w && Qle_bool w 1) ws
+  && Qle_bool (Qabs (qsum ws - 1)) qtol.   (* Python: sum(w) == 1 in binary64; sums within 1e-8..1e-3 of 1 are not generated *)
 Inductive dis_result := DSame | DCells (r : result (list ucell)).   (* DSame: the argument is returned *)
 (* res_tri = period_resolution(triangle) (an input; C13), triangle cumulative and semi-regular *)
 Definition disaggregate_experience (res_tri res_new : nat) (weights : option (list Q)) (fields : list str)
@@ -117,7 +118,7 @@ Definition raw_or_0 (aq : period) (tbl : list (period * Q)) : Q :=
 Definition total_share (ep : share_table) (aq : period) : Q := qsum (map (fun e => raw_or_0 aq (snd e)) ep).
 (* the normalised share of accident quarter aq falling into the policy year with table tbl *)
 Definition nshare (ep : share_table) (aq : period) (tbl : list (period * Q)) : Q :=
-  raw_or_0 aq tbl / total_share ep aq.
+  Qred (raw_or_0 aq tbl / total_share ep aq).
 Definition has_share (aq : period) (tbl : list (period * Q)) : bool :=
   match passoc aq tbl with Some _ => true | None => false end.
 
@@ -141,7 +142,7 @@ Definition py_value (ep : share_table) (tbl : list (period * Q)) (cs : list cell
       if negb (forallb (fun v => (length v =? S)%nat || (length v =? 1)%nat) vs) then Err ValueError
       else let xs := map (fun k => qsum (map (contrib ep tbl f k) cs)) (seq 0 S) in
            if forallb (fun c => match assoc f (cvals c) with Some (VArr _ _) => false | _ => true end) contributing
-           then Ok (UNum true (nth 0 xs 0)) else Ok (UArr true xs)
+           then Ok (UNum true (qsum (map (contrib ep tbl f 0) cs))) else Ok (UArr true xs)
   end.
 Definition policy_str : str := [80;111;108;105;99;121]%Z.
 Definition set_risk_basis (m : meta) (t : str) : meta :=
@@ -187,12 +188,12 @@ Definition covered (ep : share_table) (cells : list cell) : bool :=
 (* ================================================================== program_earned_premium *)
 Fixpoint repeat_each {A} (n : nat) (l : list A) : list A :=
   match l with [] => [] | x :: r => repeat x n ++ repeat_each n r end.
-(* elementwise sum, the shorter list padded with zeros *)
+(* elementwise sum, the shorter list padded with zeros; Qred only keeps the numerals small (Qred q == q) *)
 Fixpoint addl (a b : list Q) : list Q :=
   match a, b with
   | [], _ => b
   | _, [] => a
-  | x :: r, y :: s => (x + y) :: addl r s
+  | x :: r, y :: s => Qred (x + y) :: addl r s
   end.
 (* sum_n w_n * ([0]*n ++ me ++ [0]*(N-n-1)) *)
 Fixpoint conv (mw me : list Q) : list Q :=
@@ -207,7 +208,7 @@ Fixpoint buckets (fuel sz next : nat) (mw comb : list Q) : list (Q * Q) :=
   | O => []
   | S f => match comb with
            | [] => []
-           | _ => (qsum (firstn sz mw), qsum (firstn sz comb))
+           | _ => (Qred (qsum (firstn sz mw)), Qred (qsum (firstn sz comb)))
                     :: buckets f next next (skipn sz mw) (skipn sz comb)
            end
   end.
